@@ -262,7 +262,7 @@ class FuncPath(ExprMixin):
         if self.__operand is None:
             return FuncPath(self.__func, operand) if callable(operand) else operand
         else:
-            return self.__func(self.__operand(operand) if callable(self.__operand) else self.__operand)
+            return self.__func(_evaluate(self.__operand, operand, args))
 
 
 this = Path("this")
